@@ -389,6 +389,80 @@ _SECTION_RE = re.compile(
     rb'(BODY|BODY\.PEEK|BINARY|BINARY\.PEEK|BINARY\.SIZE)\Z', re.I)
 
 
+_MSGTEXT = (b'HEADER.FIELDS.NOT', b'HEADER.FIELDS', b'HEADER', b'TEXT',
+            b'MIME')
+
+
+def _section(p: _P, base: bytes, names: list | None = None) -> None:
+    """RFC 3501 `section` (RFC 3516 `section-binary` after BINARY):
+    "[" [section-spec] "]" with header-list = "(" astring *(SP astring) ")".
+    Decoded header field names are appended to *names*."""
+    p.expect(b'[', 'fetch')
+    binary = base.upper().startswith(b'BINARY')
+    first = True
+    while True:
+        c = p.peek()
+        if c == 0x5d:
+            if not first:
+                raise WireError('fetch', 'section ends with "."', p.pos)
+            p.pos += 1
+            return
+        if 0x30 <= c <= 0x39:
+            n = p.number()
+            if n == 0:
+                raise WireError('fetch', 'section part number 0', p.pos)
+        elif binary:
+            raise WireError('fetch', 'BINARY section is not a part path',
+                            p.pos)
+        else:
+            word = p.span(b'ABCDEFGHIJKLMNOPQRSTUVWXYZabcdefghijklmnopqrstuv'
+                          b'wxyz.').upper()
+            if word not in _MSGTEXT:
+                raise WireError('fetch', 'unknown section text %r' % word,
+                                p.pos)
+            if word == b'MIME' and first:
+                raise WireError('fetch', 'MIME without a part number', p.pos)
+            if word.startswith(b'HEADER.FIELDS'):
+                p.expect(b' ', 'fetch')
+                p.expect(b'(', 'fetch')
+                while True:
+                    val = p.astring()
+                    if isinstance(val, Atom) and b']' in val:
+                        raise WireError('fetch', 'header field name atom '
+                                        'contains "]"', p.pos)
+                    if names is not None:
+                        names.append(bytes(val))
+                    c = p.take()
+                    if c == 0x29:
+                        break
+                    if c != 0x20:
+                        raise WireError('fetch', 'header list: expected SP '
+                                        'or ) got %r' % bytes([c]), p.pos - 1)
+            p.expect(b']', 'fetch')
+            return
+        first = False
+        c = p.take()
+        if c == 0x5d:
+            return
+        if c != 0x2e:
+            raise WireError('fetch', 'section: expected "." or "]" got %r'
+                            % bytes([c]), p.pos - 1)
+        first = False
+        if p.peek() == 0x5d:
+            raise WireError('fetch', 'section ends with "."', p.pos)
+
+
+def section_header_names(item: bytes) -> list | None:
+    """Decoded header field names of a FETCH item name such as
+    ``BODY[HEADER.FIELDS (A "b c")]``; None if it has no header list."""
+    idx = item.find(b'[')
+    if idx < 0 or b'HEADER.FIELDS' not in item.upper():
+        return None
+    names: list = []
+    _section(_P(item + b'\r\n', idx), item[:idx], names)
+    return names
+
+
 def _fetch_item_name(p: _P) -> bytes:
     name = p.span(b'ABCDEFGHIJKLMNOPQRSTUVWXYZabcdefghijklmnopqrstuvwxyz'
                   b'0123456789.-_')
@@ -397,21 +471,7 @@ def _fetch_item_name(p: _P) -> bytes:
                         bytes(p.buf[p.pos:p.pos + 10]), p.pos)
     if p.peek() == 0x5b:  # section
         start = p.pos
-        p.pos += 1
-        depth = 0
-        while True:
-            c = p.take()
-            if c == 0x28:
-                depth += 1
-            elif c == 0x29:
-                depth -= 1
-            elif c == 0x22:
-                p.pos -= 1
-                p.quoted()
-            elif c == 0x5d and depth == 0:
-                break
-            elif c in (0x0d, 0x0a, 0x00):
-                raise WireError('fetch', 'control byte in section', p.pos - 1)
+        _section(p, name)
         name += bytes(p.buf[start:p.pos])
         if p.peek() == 0x3c:  # <origin>
             p.pos += 1
